@@ -1358,7 +1358,14 @@ def rule_fill_mode_cleared_unconditionally(ctx):
             if nd[0] == "s" and nd[1] is not None:
                 for x in walk(nd[1], True):
                     # `~NC_NOFILL` (or `~(.. | NC_NOFILL)`) reaches us folded into one constant: it clears bit 0x100
-                    if x[0] == "asg" and x[1] == "&=" and mem_field(x[2]) == ("NC", "flags") and (any(int_name(y) == "NC_NOFILL" for y in walk(x[3], True)) or (is_int(x[3]) and (~int_val(x[3])) & 0x100)):
+                    mask = None
+                    if x[0] == "asg" and mem_field(x[2]) == ("NC", "flags"):
+                        if x[1] == "&=":
+                            mask = x[3]
+                        elif x[1] == "=" and kind(strip(x[3])) == "bin" and strip(x[3])[1] == "&":      # flags = flags & ~NC_NOFILL
+                            b_ = strip(x[3])
+                            mask = b_[3] if mem_field(b_[2]) == ("NC", "flags") else (b_[2] if mem_field(b_[3]) == ("NC", "flags") else None)
+                    if mask is not None and (any(int_name(y) == "NC_NOFILL" for y in walk(mask, True)) or (is_int(mask) and (~int_val(mask)) & 0x100)):
                         conds = [a[1] for a in st if a[0] == "if" and a[1] is not None]
                         found.append((nd, conds))
             return True
